@@ -26,12 +26,12 @@ def C04():
 
 
 def C06():
-    from contracts.placement import ShouldShow, ShouldShowElement, PageBreak, PageSettings
+    from contracts.placement import ShouldShow, ShouldShowElement, PageBreak, PageSettings, EncodePageSettings
     from contracts import replayers as R
     from contracts.replay_docs import replayer as D
     return Property(
         "C06",
-        units=[ContractUnit(ShouldShow()), ContractUnit(ShouldShowElement()), ContractUnit(PageBreak()), ContractUnit(PageSettings()), _render_unit(),
+        units=[ContractUnit(ShouldShow()), ContractUnit(ShouldShowElement()), ContractUnit(PageBreak()), ContractUnit(PageSettings()), ContractUnit(EncodePageSettings()), _render_unit(),
                _figure_doc_unit()] + _text_units() + _note_units() + _strategy_units(),
         level="proof",
         technique="postconditions on the placement predicates and on the page-break / page-settings emitters (token view of the built string); "
@@ -258,7 +258,7 @@ def C01():
     from contracts.attributes import EncodeRows, Iloc, ToList, UpdateCell
     from contracts.encoder import EncodeCtx
     from contracts.row import ColWidths, ConvertSpecialChars, LEMMAS
-    from contracts.placement import PageBreak, PageSettings
+    from contracts.placement import PageBreak, PageSettings, EncodePageSettings
     from contracts.figures import EncodeSingleFigure
     from contracts.colors import GenerateColorTable
     from contracts.headers import EncodeColumnHeader, RenderColumnHeaders, SublineHeader
@@ -266,7 +266,7 @@ def C01():
     from contracts import replayers as R
     from contracts.replay_docs import replayer as D
     units = [ContractUnit(u) for u in EM] + [ContractUnit(EncodeRows()), ContractUnit(EncodeCtx()), ContractUnit(ColWidths()),
-             ContractUnit(ConvertSpecialChars()), ContractUnit(PageBreak()), ContractUnit(PageSettings()), ContractUnit(EncodeSingleFigure()),
+             ContractUnit(ConvertSpecialChars()), ContractUnit(PageBreak()), ContractUnit(PageSettings()), ContractUnit(EncodePageSettings()), ContractUnit(EncodeSingleFigure()),
              ContractUnit(GenerateColorTable()), ContractUnit(EncodeColumnHeader()), ContractUnit(RenderColumnHeaders()),
              ContractUnit(SublineHeader()), ContractUnit(EncodeSpanningRow()), _figure_doc_unit(), _multi_section_unit(),
              ContractUnit(Iloc()), ContractUnit(ToList()), ContractUnit(UpdateCell())] + _text_units() + _note_units() + LEMMAS
